@@ -74,6 +74,9 @@ func genC11(r *Rand, tier, profile string) *Case {
 	nodes := r.PickInt([]int{1, 1, 2, 3})
 	c.Knobs["nodes"] = int64(nodes)
 	gossipKnobs(r, c)
+	if r.Bool(0.15) {
+		c.Knobs["leave_spread_ms"] = 6000
+	}
 	var ts []tstep
 	// witness on node 0: alive throughout, publishes at the end
 	ts = append(ts, tstep{1, Step{K: "connect", C: 0, N: 0, S: "witness", U: "u", T: "p", I: 3000}})
@@ -260,16 +263,40 @@ func (w *world) lifeFactsOf(cl *simClient) lifeFacts {
 			continue
 		}
 		switch {
-		case s.K == "cut":
+		case s.K == "cut" && cl.downAt == w.stepAt[si]:
 			f.cause, f.causeAt, f.causeStep = "cut", w.stepAt[si], si
-		case s.K == "close":
+		case s.K == "close" && cl.downAt == w.stepAt[si]:
 			f.cause, f.causeAt, f.causeStep = "close", w.stepAt[si], si
-		case s.K == "pkt" && s.S == "disconnect":
+		case s.K == "pkt" && s.S == "disconnect" && w.txStamp(si, cl.idx, tDISCONNECT) >= 0:
 			f.cause, f.causeAt, f.causeStep = "disconnect", w.stepAt[si], si
-		case s.K == "pkt" && s.S == "connect":
+		case s.K == "pkt" && s.S == "connect" && w.txStamp(si, cl.idx, tCONNECT) >= 0:
 			f.cause, f.causeAt, f.causeStep = "protoerr", w.stepAt[si], si
-		case s.K == "raw":
+		case s.K == "raw" && w.txStamp(si, cl.idx, 0) >= 0:
 			f.cause, f.causeAt, f.causeStep = "protoerr", w.stepAt[si], si
+		}
+	}
+	// silence takes precedence when the client had already been quiet for more than twice its
+	// keep-alive before the scripted cause (or there is none)
+	{
+		var txs []int64
+		for _, ob := range w.obs {
+			if ob.Client == cl.idx && ob.Epoch == cl.epoch && !ob.Rx {
+				txs = append(txs, ob.AtMs)
+			}
+		}
+		limit := w.nowMs()
+		if f.cause != "" {
+			limit = f.causeAt
+		}
+		txs = append(txs, limit)
+		for i := 1; i < len(txs); i++ {
+			if txs[i] > limit {
+				break
+			}
+			if txs[i]-txs[i-1] > 2*f.k*1000 {
+				f.cause, f.causeAt, f.causeStep = "silence", txs[i-1], -1
+				break
+			}
 		}
 	}
 	for _, ob := range w.obs {
